@@ -8,6 +8,7 @@ import ast
 
 from .. import astutil as A
 from ..fa import FA
+from .valeq import check_typed_identity
 from .ladders import extract_ladder, check_ladder_order, repo_subclass_pairs
 
 MC = "serialization.MementoCodec"
@@ -128,6 +129,16 @@ def check(ck):
     ck.ob(R1, ei.key(None, "enum-and-runtime"), okr, "result type travels by name, runtime as seconds" if okr else
           "result type / runtime are not encoded as (name, seconds) and decoded the same way", ei.where())
 
+    # datetimes are written as they are: no zone / precision conversion before isoformat()
+    ed = FA(ck, MC + ".encode_datetime")
+    for r in ed.returns():
+        d = ed.deps(r.value)
+        only_param = all(x.kind == "param" for i in ed.nodes(r) for x in ed.df.reaching(i, "obj"))
+        conv = sorted({x[5:] for x in d if x.startswith("call:") and x[5:] in ("astimezone", "utcfromtimestamp", "fromtimestamp", "timestamp", "date", "time", "combine", "normalize", "tz_convert", "tz_localize")})
+        ok = "call:isoformat" in d and "param:obj" in d and only_param and not conv
+        ck.ob(R1, ed.key(r, "datetime-as-is"), ok, "the datetime is written as obj.isoformat() (zone and precision untouched)" if ok else
+              "encode_datetime converts the value before writing it (%s): the decoded datetime has another offset, so the argument hash "
+              "recomputed from the decoded arguments differs from the stored one" % (conv or "obj is reassigned"), ed.where(r))
     # ---- R3
     ea = FA(ck, MC + ".encode_arg")
     da = FA(ck, MC + ".decode_arg")
@@ -198,3 +209,4 @@ def check(ck):
     lad = extract_ladder(ea.node)
     n = check_ladder_order(ck, R5, ea, lad, pairs, "wire-encode")
     ck.need(n >= 2, "encode_arg ladder: bool/int and datetime/date not comparable (%d)" % n)
+    check_typed_identity(ck, "C11.R6", ("serialization", "reference"))
